@@ -397,6 +397,18 @@ func (g *gen) genProgram(c *Case) *progInfo {
 				}
 				if depth < 2 && g.p(0.3) {
 					addCmds(n, depth+1)
+					if g.p(0.35) {
+						// an option declared on a command after its sub-commands exist (it reaches them
+						// only through a later tree-wide copy: another NewCommand / HelpCommand)
+						op, oi := g.genOpt(pi, n, used[h], &c.Env)
+						script = append(script, op)
+						n.opts = append(n.opts, oi)
+						for _, ch := range n.cmds {
+							if g.p(0.5) {
+								pi.nodes[ch].opts = append(pi.nodes[ch].opts, oi)
+							}
+						}
+					}
 				}
 			}
 		}
